@@ -39,6 +39,28 @@ def spin_ok(crys, g, ci, gci):
     return bool(np.isclose(np.linalg.norm(np.dot(g.cartrot, s0)), np.linalg.norm(s1)))
 
 
+def spins_carried(crys, g):
+    """the operation carries the spin texture onto itself up to ONE global phase (a root of unity: time reversal for scalar spins,
+    the phases gengroup tries): for every atom, spin(image) == phase * g(spin), g(s) = det * s (scalar) or cartrot . s (vector)"""
+    if crys.spins is None:
+        return True
+    det = 1 if np.linalg.det(np.asarray(g.cartrot, dtype=float)) > 0 else -1
+    phases = [np.exp(2j * np.pi * k / 12) for k in range(12)]
+    zero = np.zeros(crys.dim, dtype=int)
+    for ph in phases:
+        ok = True
+        for ci in crys.atomindices:
+            gci = crys.g_pos(g, zero, ci)[1]
+            s0, s1 = crys.spins[ci[0]][ci[1]], crys.spins[gci[0]][gci[1]]
+            rs = det * s0 if isinstance(s0, Number) else np.dot(np.asarray(g.cartrot, dtype=float), np.asarray(s0))
+            if not np.allclose(ph * np.asarray(rs), np.asarray(s1), atol=1e-7):
+                ok = False
+                break
+        if ok:
+            return True
+    return False
+
+
 def soundness(cname, gsel, gstride):
     def fn(src=None):
         src = src or Src()
@@ -76,6 +98,7 @@ def soundness(cname, gsel, gstride):
                 ob('species@%d.%d' % ci, gci[0] == ci[0] and 0 <= gci[1] < len(crys.basis[ci[0]]))
                 ob('permutation-matches-geometry@%d.%d' % ci, geom.image_atom(crys, g, ci) == gci)
                 ob('spin@%d.%d' % ci, spin_ok(crys, g, ci, gci))
+            ob('spins-carried-with-one-phase', spins_carried(crys, g))
             for c, perm in enumerate(g.indexmap):
                 ob('permutation-bijective@%d' % c, sorted(perm) == list(range(len(crys.basis[c]))))
             if src.symbolic and gi == gsel:
@@ -162,7 +185,7 @@ def symbolic_algebra(dim, nat):
 
 
 QUICK = ['hcp', 'l12', 'rumpled', 'honeycomb', 'afm-square', 'afm-bcc', 'fm-hex', 'afm-hex', 'spinvec-sc', 'hcp-nosym', 'fcc-nosym', 'rect2', 'mono', 'nbo',
-         'ortho-ab-general', 'tetra-polar-abx2', 'rect-ab-general', 'ortho-abc-mirror', 'tric-abc']
+         'ortho-ab-general', 'tetra-polar-abx2', 'rect-ab-general', 'ortho-abc-mirror', 'tric-abc', 'helix-spin-against', 'helix-spin-with']
 THOROUGH = QUICK + ['sc', 'fcc', 'bcc', 'diamond', 'b2', 'bccoct', 'hcpoct', 'square', 'tria', 'wurtzite', 'fcc111', 'hex1']
 
 
